@@ -200,9 +200,44 @@ def cases(draw):
     return {"main": main, "datas": datas}
 
 
+@st.composite
+def expression_cases(draw):
+    """One node carrying one big expression: a ternary with a deep condition, ranges and filters side by side.
+
+    (Printing adds clarifying parentheses, so groups meet ranges, filters and ternary parts that the random
+    templates combine too rarely; added after the thorough tier found such a combination that would not re-parse.)
+    """
+    r = core.rng(draw)
+    g = gg.Gen(r, _profile(EXCLUDED))
+
+    def operand():
+        return g.rangelit() if r.random() < 0.35 else g.argp()
+
+    tern = {
+        "k": "tern", "left": {"k": "filt", "left": operand(), "filters": g.filters(2)}, "cond": g.boolean(r.choice([2, 3, 3])),
+        "?alt": operand() if r.random() < 0.8 else None, "altf": [], "tail": [],
+    }
+    if tern["?alt"] is not None and r.random() < 0.4:
+        tern["altf"] = g.filters(2) or [g.filter_()]
+    if r.random() < 0.4:
+        tern["tail"] = g.filters(2) or [g.filter_()]
+    c = r.random()
+    if c < 0.4:
+        node = {"k": "out", "e": tern, "ws": None}
+    elif c < 0.6:
+        node = {"k": "echo", "e": tern, "ws": None}
+    elif c < 0.8:
+        node = {"k": "assign", "name": g.name(), "e": tern, "ws": None}
+    else:
+        node = {"k": "if", "cond": g.boolean(3), "body": [{"k": "out", "e": tern, "ws": None}], "elsifs": [], "?else": None, "ws": None}
+    main = [node, {"k": "out", "e": {"k": "filt", "left": g.path(), "filters": []}, "ws": None}]
+    return {"main": main, "datas": [gd.DataGen(r).data() for _ in range(2)]}
+
+
 def campaign(ctx: core.Ctx, tier: str, shard: int, nshards: int) -> None:
     total = 4000 if tier == "quick" else 100000
     core.drive(cases(), ctx.run, n=max(1, total // nshards), seed=core.sub_seed(ctx.seed, shard))
+    core.drive(expression_cases(), ctx.run, n=max(1, (3000 if tier == "quick" else 60000) // nshards), seed=core.sub_seed(ctx.seed, shard, 1))
 
 
 def finish_kwargs(ctx: core.Ctx, tier: str) -> dict:
@@ -213,7 +248,9 @@ def finish_kwargs(ctx: core.Ctx, tier: str) -> dict:
             "limit/offset/reversed, tablerow, capture, assign, echo, cycle with/without group, increment, "
             "decrement, ifchanged, include, render, liquid, comments, raw) with not/parentheses/ternary enabled, "
             "string literals containing quotes, backslashes and newlines, bracketed roots, nested paths, ranges, "
-            "filters with positional and keyword arguments and whitespace control; 3 data sets each. "
+            "filters with positional and keyword arguments and whitespace control; 3 data sets each; plus single-node "
+            "templates carrying one large expression (ternary with a condition of depth 2-3, range or primitive "
+            "operands, filters on every part). "
             "Non-trivial = >= 2 nodes of which one is not text/comment/raw; classes kind:* and feat:* show which "
             "constructs were exercised. A failure is localised to the smallest single node that reproduces it."
         ),
